@@ -31,6 +31,12 @@ def byte3 (p : Bytes) : R Nat := byteAt p 3
 def isScrambled (b3 : Nat) : Bool := b3 &&& 0b1100_0000 != 0
 /-- `scheme()`: `NonZeroU8::new(b3 >> 6)`; 0 stands for `None` -/
 def scheme (b3 : Nat) : Nat := b3 >>> 6
+/-- the byte an `AdaptationControl` value stores (what `==` compares and `Debug` prints): the two
+bits of `adaptation_field_control` in place, every other bit of header byte 3 cleared (repaired
+tree; the pinned tree stored the whole byte, finding F11) -/
+def adaptationControlRepr (b3 : Nat) : Nat := b3 &&& 0b0011_0000
+/-- likewise for `TransportScramblingControl`: the two scrambling bits in place -/
+def scramblingControlRepr (b3 : Nat) : Nat := b3 &&& 0b1100_0000
 def hasPayload (b3 : Nat) : Bool := b3 &&& 0b0001_0000 != 0
 def hasAf (b3 : Nat) : Bool := b3 &&& 0b0010_0000 != 0
 /-- `ContinuityCounter::new(buf[3] & 0xf)` (asserts `< 16`) -/
